@@ -47,6 +47,20 @@ Proof.
 Qed.
 Print Assumptions C10_http_name_normal_form.
 
+(* The restriction named in DESIGN.md, as boolean guards: for a prefix over [A-Za-z0-9_/] and a
+   Go identifier as name (more generally: no '.' byte in either), no path element is "." or
+   "..", and path.Join only squeezes slashes: the name is "/" + the non-empty "/"-separated
+   pieces of prefix + "/" + toServiceMethods(name). *)
+Theorem C10_http_mapper_plain : forall prefix name,
+  plain_prefix prefix = true -> is_ident name = true ->
+  http_mapper prefix name =
+  c_sl :: join_with c_sl
+            (filter nonempty (split_on c_sl (prefix ++ c_sl :: to_service_methods name c_sl true) [])).
+Proof.
+  exact (fun p n Hp Hn => http_mapper_plain p n (plain_prefix_no_dot p Hp) (is_ident_no_dot n Hn)).
+Qed.
+Print Assumptions C10_http_mapper_plain.
+
 (* RPC names neither start nor end with '.' *)
 Theorem C10_rpc_name_trimmed : forall prefix name,
   match rpc_mapper prefix name with [] => True | x :: _ => x <> c_dot end /\
@@ -113,6 +127,13 @@ Theorem C10_no_silent_sharing : forall k ops r lg,
   run k init ops = Ok (r, lg) -> NoDup (map key (returned_log k ops)).
 Proof. exact run_ok_nodup. Qed.
 Print Assumptions C10_no_silent_sharing.
+
+(* ... and conversely reg is fatal ONLY in that case: a sequence completes iff the
+   (namespace, name) pairs it would return are pairwise distinct (no spurious exit) ... *)
+Theorem C10_fatal_iff_shared_name : forall k ops,
+  (exists r lg, run k init ops = Ok (r, lg)) <-> NoDup (map key (returned_log k ops)).
+Proof. exact run_ok_iff_nodup. Qed.
+Print Assumptions C10_fatal_iff_shared_name.
 
 (* ... because a registration that maps to a name already taken in its namespace is fatal
    at that registration, whatever follows ... *)
@@ -205,6 +226,12 @@ Example C10_example_self_conflict :
   /\ run MHTTP init [ OReg CALL [] (IStruct (str "T") [(str "AaB", str "h1"); (str "Aa__B", str "h2")]) ]
      = Error (str "/t/aa_b").
 Proof. split; vm_compute; reflexivity. Qed.
+
+(* the guards of C10_http_mapper_plain are satisfiable *)
+Example C10_example_plain :
+  plain_prefix (str "/api//v2/") = true /\ is_ident (str "Get_ID__x") = true /\
+  http_mapper (str "/api//v2/") (str "Get_ID__x") = str "/api/v2/get/id_x".
+Proof. vm_compute. repeat split. Qed.
 
 (* the mappers are not injective, so the conflict theorems are not vacuous *)
 Example C10_example_not_injective :
